@@ -27,7 +27,7 @@ from harness import pyast_wire as W
 
 META = {
     "id": "C03",
-    "technique": "Coq proof (soundness of a line-by-line model of _eval_const w.r.t. the reference Python semantics Lang/PySem.v by induction over expressions; closedness of name-free folds; a model of the constant environment across if / while / for - since the repair: child scopes with private copies of the tracked lists, names written in a block forgotten after it and, for a loop, before it - and a simulation theorem - residual program with baked-in constants = source program on every control-flow path, whatever the blocks write - by induction over nested statement blocks, with the invariant 'the environment agrees with the run-time state' exported (C03_env_agrees); the witnesses of the eight repaired stale-fold findings as positive theorems; a second simulation for the module-level split between static global initialisers, which run before setup(), and run-time assignments: hoisting is invisible because only closed constant right-hand sides are hoisted, refuted for the variant without the name-free test; (the flow-sensitive ghost environment of the earlier rounds is gone: the repaired transpiler IS flow-sensitive); function definitions: body parsed at the def with the formal arguments and every name the script binds more than once unknown, run at a later call, theorem for every argument value and whatever the module re-assigns in between; names a function body writes are volatile at module level; tuple assignment as the transpiler emits it - every right-hand side into a temporary, then the targets - proved to be Python's simultaneous assignment for every environment, arity and overlap of targets and right-hand sides via a frame lemma for the reference evaluator, the target-by-target update refuted; parse-then-emit: IR nodes that bake a list hold list objects resolved only when the whole script is parsed - theorem: every flash_pattern node owns its object, so the emitted program is the snapshot residual for every script, the aliasing shortcut refuted) + extracted-model correspondence with the real _eval_const/_expr_has_name/_to_c_expr/parse() + CPython and compiled-firmware oracles",
+    "technique": "Coq proof (soundness of a line-by-line model of _eval_const w.r.t. the reference Python semantics Lang/PySem.v by induction over expressions; closedness of name-free folds; a model of the constant environment across if / while / for - since the repair: child scopes with private copies of the tracked lists, names written in a block forgotten after it and, for a loop, before it - and a simulation theorem - residual program with baked-in constants = source program on every control-flow path, whatever the blocks write - by induction over nested statement blocks, with the invariant 'the environment agrees with the run-time state' exported (C03_env_agrees); the witnesses of the eight repaired stale-fold findings as positive theorems; a second simulation for the module-level split between static global initialisers, which run before setup(), and run-time assignments: hoisting is invisible because only closed constant right-hand sides are hoisted, refuted for the variant without the name-free test; (the flow-sensitive ghost environment of the earlier rounds is gone: the repaired transpiler IS flow-sensitive); function definitions: body parsed at the def with the formal arguments and every name the script binds more than once unknown, run at a later call, theorem for every argument value and whatever the module re-assigns in between; names a function body writes are volatile at module level; tuple assignment as the transpiler emits it - every right-hand side into a temporary, then the targets - proved to be Python's simultaneous assignment for every environment, arity and overlap of targets and right-hand sides via a frame lemma for the reference evaluator, the target-by-target update refuted; parse-then-emit: IR nodes that bake a list hold list objects resolved only when the whole script is parsed - theorem: every flash_pattern node owns its object, so the emitted program is the snapshot residual for every script, the aliasing shortcut refuted; calls of a function that WRITES module-level names (Lang/ConstCall.v): the names the body writes are unknown in the calling scope from the def on and no statement form - plain / augmented / tuple assignment, append / remove, assignments inside if / try / while / for at any depth - makes one known again (invariant C03_volatile_never_known, by case analysis over every statement form), hence a simulation for any number of calls with the residual body inlined at each call (C03_calls_partial); the same calling sequence inside another function's body is refuted - C03_call_in_function_refuted, a listed finding) + extracted-model correspondence with the real _eval_const/_expr_has_name/_to_c_expr/parse() + CPython and compiled-firmware oracles",
     "level_text": "Theorems C03_* (coq/Props/C03.v) are proved for all expressions / environments about Gallina models of _eval_const, _expr_has_name, _literal_length, the folding call sites and the constant environment (len(name), flash_pattern(name), lcd.glyph bitmaps; append / remove bookkeeping; child scopes, forgetting of written names) (operator and cast tables regenerated from parser.py on every run); soundness holds inside an explicit guard of single-statement side conditions (the eight listed stale-fold findings are repaired - kind fixed - and their witnesses are replayed on the real transpiler on every run); the models are run against the real functions on generated expressions, environments and programs, and the property itself (folded value = CPython value; firmware observations = CPython observations) is evaluated on the real artefacts for every generated case inside the guard.",
     "level_note": "Trusted: Coq kernel, the reference semantics Lang/PySem.v (validated against CPython by harness/pysem_check.py), translator harness/gen/safecasts.py, extraction, OCaml driver, the mock Arduino core + g++ as 'device', CPython 3.12 as 'what Python means'. The theorems are about the models; the correspondence bounds their distance from parser.py. Floats are exact rationals in the model: value comparisons are made only where every intermediate float is a binary64 value (measured per case).",
     "design_ref": "DESIGN.md section 4 C03",
@@ -1150,7 +1150,9 @@ def wire_prog(p, ctr=None):
     for s in p:
         k = s[0]
         if k == "assign":
-            out.append([0, s[1], W.enc_src(s[2])])
+            # s[3] (optional): the expression sent to the model where the script's spelling is outside the wire's expression
+            # language but has the same constant value (a list comprehension over a literal range)
+            out.append([0, s[1], W.enc_src(s[3] if len(s) > 3 else s[2])])
         elif k == "rt":
             out.append([0, s[1], W.enc_src(f"[{RT_PINS[s[2]]}][0]")])
         elif k == "append":
@@ -1183,6 +1185,23 @@ def wire_prog(p, ctr=None):
 
 
 NAME_RE = re.compile(r"\b(" + "|".join(ALLV) + r")\b")
+
+
+def assigned_names(b):
+    """names a block binds by assignment (plain, augmented, tuple, run-time read) at any depth"""
+    out = set()
+    for st in b:
+        if st[0] in ("assign", "aug", "rt"):
+            out.add(st[1])
+        elif st[0] == "tuple":
+            out |= set(st[1])
+        elif st[0] == "if":
+            out |= assigned_names(st[1]) | assigned_names(st[2])
+        elif st[0] in ("while", "main"):
+            out |= assigned_names(st[1])
+        elif st[0] == "for":
+            out |= assigned_names(st[2])
+    return out
 
 
 def render_prog(p, sfx, header=True):
@@ -1250,6 +1269,11 @@ def render_prog(p, sfx, header=True):
                     block(rest, lvl + 1)
             elif k == "def":
                 lines.append(f"{pad}def {s[1]}_{sfx}(" + ", ".join(f"{rn(x)}: {t}" for x, t in s[2]) + "):")
+                if len(s) > 4 and s[4] == "g":
+                    # a body that ASSIGNS module-level names declares them global (append / remove need no declaration)
+                    gl = sorted(assigned_names(s[3]))
+                    if gl:
+                        lines.append(f"{pad}    global " + ", ".join(rn(x) for x in gl))
                 block(s[3], lvl + 1)
             elif k == "call":
                 lines.append(f"{pad}{s[1]}_{sfx}(" + ", ".join(rn(a) for a in s[2]) + ")")
@@ -1281,8 +1305,9 @@ def render_prog(p, sfx, header=True):
 WALK_CALLS = {}
 
 
-def walk_oracle(p, rng, budget=60):
-    """draw the run-time decisions of one execution: -> (model oracle, digital reads pin 4, analog reads pin 14)"""
+def walk_oracle(p, rng, budget=60, inline_calls=False):
+    """draw the run-time decisions of one execution: -> (model oracle, digital reads pin 4, analog reads pin 14);
+    inline_calls: the decisions of a called body go into the one oracle, in execution order (Lang/ConstCall.v)"""
     orc, dr, ar = [], [], []
     left = [budget]
     defs, calls = {}, []
@@ -1295,6 +1320,8 @@ def walk_oracle(p, rng, budget=60):
             left[0] -= 1
             if s[0] == "def":
                 defs[s[1]] = s[3]
+            elif s[0] == "call" and inline_calls:
+                block(defs[s[1]])
             elif s[0] == "call":
                 # the model's oracle for this call: the decisions of the module statements so far, then the body's
                 main, orc = orc, []
@@ -1800,6 +1827,308 @@ def layer_b(ctx, stats):
     return len(progs), len(distinct), samples, n_sk
 
 
+# ------------------------------------------------------------------ layer C: calls of functions that write module names
+CALL_VARIANTS = ("module", "if", "two", "main", "if", "for", "fn", "module", "param", "module", "two", "main", "if", "module")
+LIST_LITS = ["[1, 0, 1]", "[0, 1]", "[7]", "[1, 1, 0, 255]", "[]", "[2, 0, 2]"]
+
+
+def gen_call_program(rng, variant):
+    """module names bound to constants; def gr(): a body that WRITES some of them (append to a list - a constant or a
+    run-time value -, `global s; s = s + 'x'`, augmented assignment, a plain constant, some inside an if); then the
+    calling sequence: [re-bind a written name; gr(); fold it]+ where the re-binding statement is EVERY form - plain
+    assignment, tuple assignment (either target order, a swap of two strings), augmented assignment, a list
+    comprehension, assignment + append of a constant, the assignment inside if / try / for / while - and the fold is
+    len(name) / mon.write(name) / rarely flash_pattern(name) or a glyph row (refused: nothing to bake).  No plain
+    assignment stands between the re-binding and the call.
+    variant: the calling sequence at module level | inside the main loop | inside an if | inside a for body | as the
+    body of a second function ('fn': there the transpiler folds after a call - finding F-C03-stale-after-call-in-function -
+    so the caller only re-binds written names by forms that do not re-track a constant).
+    -> (program, parts) with parts = (prefix, body, first, rest) for the model (Lang/ConstCall.v)"""
+    m = rng.choice(RT_N)
+    prefix = [("rt", m, rng.choice(sorted(RT_PINS)))]
+    lists = rng.sample(LIST_N, rng.randint(1, 2))
+    strs = rng.sample(STR_N, rng.randint(1, 2))
+    ints = rng.sample(INT_N, 2)
+    decl = []
+    for x in lists:
+        decl.append(("assign", x, repr([rng.randint(0, 1) for _ in range(rng.randint(1, 3))])))
+    for x in strs:
+        decl.append(("assign", x, repr(rng.choice(STRS[1:]))))
+    for x in ints:
+        decl.append(("assign", x, str(rng.randint(0, 9))))
+    rng.shuffle(decl)
+    prefix += decl
+    # ---- the callee
+    wl = rng.sample(lists, rng.randint(1, len(lists))) if rng.random() < 0.8 else []
+    ws = rng.sample(strs, 1) if (not wl or rng.random() < 0.6) else []
+    wi = rng.sample(ints, 1) if rng.random() < 0.3 else []
+    body = []
+    for x in wl:
+        body.append(("append", x, rng.choice(["1", "0", "7", "255", m])))
+    for x in ws:
+        body.append(rng.choice([("assign", x, f"{x} + 'x'"), ("aug", x, "+", "'yz'"), ("assign", x, repr(rng.choice(STRS) + "rs"))]))
+    for x in wi:
+        body.append(rng.choice([("assign", x, f"{x} + 1"), ("aug", x, "+", "2"), ("assign", x, "7")]))
+    if ws and wi and rng.random() < 0.5:
+        # the body writes both by ONE tuple assignment (temporaries inside the function)
+        body = [st for st in body if st[1] not in (ws[0], wi[0])] + [("tuple", [ws[0], wi[0]], [f"{ws[0]} + 'x'", f"{wi[0]} + 1"])]
+    rng.shuffle(body)
+    if len(body) > 1 and rng.random() < 0.25:
+        body[-1] = ("if", [body[-1]], [])
+    if rng.random() < 0.3:
+        x = rng.choice(wl + ws)
+        body.append(("len", x))
+    written = wl + ws + wi
+    free_int = [x for x in ints if x not in wi]
+    free_str = [x for x in strs if x not in ws]
+
+    def rebind(x):
+        """one re-binding of the written name x, as a list of statements"""
+        forms = ["plain", "tuple", "tuple", "tuple", "aug", "block", "block"]
+        if x in LIST_N:
+            forms += ["comp", "plain+append"]
+        if variant == "fn":
+            forms = ["aug"] if x not in LIST_N else ["append"]
+        f = rng.choice(forms)
+        lit = rng.choice(LIST_LITS) if x in LIST_N else repr(rng.choice(STRS) + rng.choice(["", "k", "kk"])) if x in STR_N else str(rng.randint(10, 31))
+        if f == "append":
+            return [("append", x, rng.choice(["1", "7"]))]
+        if f == "aug":
+            if x in LIST_N:
+                return [("assign", x, lit)]
+            return [("aug", x, "+", "'q'" if x in STR_N else "3")]
+        if f == "plain":
+            return [("assign", x, lit)]
+        if f == "comp":
+            k = rng.randint(1, 4)
+            return [("assign", x, f"[{LOOPV[2]} for {LOOPV[2]} in range({k})]", repr(list(range(k))))]
+        if f == "plain+append":
+            return [("assign", x, lit), ("append", x, rng.choice(["1", "7", "0"]))]
+        if f == "tuple":
+            others = [y for y in free_int + free_str + [w for w in written if w != x and w not in LIST_N]]
+            if x in STR_N and [w for w in ws + free_str if w != x] and rng.random() < 0.3:
+                y = rng.choice([w for w in ws + free_str if w != x])
+                return [("tuple", [x, y], [y, x])]            # a swap with another tracked string
+            if not others:
+                return [("assign", x, lit)]
+            y = rng.choice(others)
+            ylit = repr(rng.choice(STRS)) if y in STR_N else str(rng.randint(0, 60))
+            return [("tuple", [x, y], [lit, ylit]) if rng.random() < 0.5 else ("tuple", [y, x], [ylit, lit])]
+        # inside a block
+        inner = [("assign", x, lit)] if rng.random() < 0.6 or not free_int else [("tuple", [x, free_int[0]], [lit, "4"])]
+        kind = rng.choice(["if", "if", "try", "for", "while"])
+        if kind == "if":
+            return [("if", inner, [])] if rng.random() < 0.7 else [("if", [("val", m)], inner)]
+        if kind == "try":
+            return [("if", inner, [], "try")]
+        if kind == "for":
+            return [("for", LOOPV[1], inner, rng.choice([1, 2]))]
+        return [("while", inner)]
+
+    def folds(x):
+        out = []
+        if x in LIST_N + STR_N:
+            out.append(("len", x))
+        if x not in LIST_N and rng.random() < 0.6:
+            out.append(("val", x))
+        if x in LIST_N and rng.random() < 0.08:
+            out.append(("flash", x))
+        if x in INT_N and rng.random() < 0.15:
+            out.append(("glyph", [x] + ["0"] * 7))
+        return out or [("val", x)] if x not in LIST_N else out
+
+    n_calls = rng.choice([1, 2, 2, 3])
+    first = []
+    if rng.random() < 0.3:
+        first.append(("val", m))
+    x = rng.choice(written)
+    if rng.random() < 0.75:
+        first += rebind(x)      # else: nothing re-binds x between the def and the first call - it was forgotten AT the def
+    rest = []
+    for j in range(n_calls):
+        seg = folds(x)
+        if rng.random() < 0.3:
+            y = rng.choice(written)
+            seg += folds(y)
+        if j + 1 < n_calls:
+            x = rng.choice(written)
+            seg += rebind(x)
+        rest.append(seg)
+    if variant == "two" and len(body) < 2:
+        variant = "module"
+    if variant == "param":
+        # the callee takes an argument and appends / adds IT (a parameter is never volatile, what the body writes is)
+        body = [("append", st[1], "vy") if st[0] == "append" else st for st in body]
+        call = lambda: ("call", "gr", [str(rng.randint(0, 9))], [0])
+        d = ("def", "gr", [("vy", "int")], body, "g")
+        prog = prefix + [d] + list(first)
+        for seg in rest:
+            prog += [call()] + seg
+        return prog, ([("rt", "vy", 17)] + prefix, body, first, rest), variant
+    if variant == "two":
+        # two functions, the second defined AFTER the first statements of the calling sequence: what only it writes is
+        # still known between the two defs and must be forgotten at the second def
+        k = rng.randint(1, len(body) - 1)
+        prog = prefix + [("def", "gr", [], body[:k], "g")] + list(first) + [("def", "gs", [], body[k:], "g")]
+        for seg in rest:
+            prog += [("call", rng.choice(["gr", "gs", "gs"]), [], [])] + seg
+        return prog, (prefix, body, first, rest), variant
+    seq = list(first)
+    for seg in rest:
+        seq += [("call", "gr", [], [])] + seg
+    d = ("def", "gr", [], body, "g")
+    if variant == "module":
+        prog = prefix + [d] + seq
+    elif variant == "main":
+        prog = prefix + [d, ("main", seq)]
+    elif variant == "if":
+        # the body of an if, the else branch, or a try body
+        prog = prefix + [d, rng.choice([("if", seq, []), ("if", [("val", m)], seq), ("if", seq, [], "try")])]
+    elif variant == "for":
+        prog = prefix + [d, rng.choice([("for", LOOPV[0], seq, rng.choice([1, 2])), ("for", LOOPV[0], seq), ("while", seq)])]
+    else:
+        prog = prefix + [d, ("def", "us", [], seq, "g"), ("call", "us", [], [])]
+    return prog, (prefix, body, first, rest), variant
+
+
+def calls_case(parts, in_fn, orc):
+    prefix, body, first, rest = parts
+    ctr = [0]
+    return [3, 1 if in_fn else 0, wire_prog(prefix, ctr), wire_prog(body, ctr), wire_prog(first, ctr),
+            [wire_prog(seg, ctr) for seg in rest], orc]
+
+
+CALL_WITNESSES = {
+    "F-C03-stale-after-call-in-function": {
+        "prog": [("assign", "vp", "[1, 0]"), ("def", "gr", [], [("append", "vp", "1")], "g"),
+                 ("def", "us", [], [("assign", "vp", "[1, 0, 1]"), ("call", "gr", [], []), ("len", "vp")], "g"),
+                 ("call", "us", [], [])], "dr": [], "ar": []},
+}
+
+
+def shrink_calls(p, dr, ar, loops, rounds=6):
+    """delete top-level statements (module constants, re-bindings, folds, calls) and statements of function bodies while
+    the firmware still differs from CPython on the same inputs; deleting statements cannot leave the guard (it consists
+    of single-statement side conditions), a candidate Python does not define is dropped"""
+    best = None
+
+    def cands(q):
+        out = []
+        for i, st in enumerate(q):
+            if st[0] == "def":
+                if len(st[3]) > 1:
+                    out += [q[:i] + [st[:3] + (st[3][:j] + st[3][j + 1:],) + st[4:]] + q[i + 1:] for j in range(len(st[3]))]
+            elif st[0] in ("main", "if", "for", "while"):
+                blk = st[1] if st[0] in ("main", "if", "while") else st[2]
+                if len(blk) > 1:
+                    for j in range(len(blk)):
+                        nb = blk[:j] + blk[j + 1:]
+                        out.append(q[:i] + [(st[0], nb) + tuple(st[2:]) if st[0] != "for" else (st[0], st[1], nb) + tuple(st[3:])] + q[i + 1:])
+            else:
+                out.append(q[:i] + q[i + 1:])
+        return out[:48]
+
+    for _ in range(rounds):
+        cs = cands(p)
+        if not cs:
+            break
+        real, scripts, _ = run_real(cs, [dr] * len(cs), [ar] * len(cs), batch=1, loops=[loops] * len(cs))
+        keep = [(c, sc, r) for c, sc, r in zip(cs, scripts, real) if r["status"] == "ran" and r["fw"] != r["py"]["obs"]]
+        if not keep:
+            break
+        p, sc, r = min(keep, key=lambda k: len(k[1]))
+        best = (sc, r)
+    return best
+
+
+def layer_calls(ctx, stats):
+    """functions that write module-level names, every re-binding statement form, call, fold"""
+    rng = ctx.rng
+    n = 448 if ctx.tier == "thorough" else 112
+    gens = [gen_call_program(rng, CALL_VARIANTS[i % len(CALL_VARIANTS)]) for i in range(n)]
+    progs, parts, variants = [g[0] for g in gens], [g[1] for g in gens], [g[2] for g in gens]
+    walks = [walk_oracle(p, rng, budget=120, inline_calls=True) for p in progs]
+    keep = [i for i, w in enumerate(walks) if w[3]]
+    progs, parts, variants, walks = ([progs[i] for i in keep], [parts[i] for i in keep], [variants[i] for i in keep],
+                                     [walks[i] for i in keep])
+    orcs, drs, ars, loops = [w[0] for w in walks], [w[1] for w in walks], [w[2] for w in walks], [w[4] for w in walks]
+    real, scripts, n_sk = run_real(progs, drs, ars, batch=8, loops=loops)
+    model = [None] * len(progs)
+    if ctx.exe:
+        # the wrapped variants (main loop / if / for) go to the model as the straight-line sequence: only its guard is used
+        cases = [calls_case(pt, v == "fn", o if v in ("module", "fn") else []) for pt, v, o in zip(parts, variants, orcs)]
+        model = ctx.model(cases)
+    distinct, samples, failing = set(), [], []
+    for idx, (p, pt, v, o, r, m, sc) in enumerate(zip(progs, parts, variants, orcs, real, model, scripts)):
+        body = sc[len(HEADER):]
+        stats["calls:variant " + v] += 1
+        stats["calls:" + r["status"].split(":")[0]] += 1
+        for st in pt[2] + [x for seg in pt[3] for x in seg]:
+            stats["calls:stmt " + (st[0] if st[0] != "if" or len(st) < 4 else "try")] += 1
+        inside = True
+        if m is not None:
+            if m == [2]:
+                ctx.disagree("wire: the model could not decode a call program", body, m, None)
+                continue
+            macc, mok, mfw, mpy, ob_p, ob_seq, ob_b = m
+            inside = bool(mok) or not macc
+            stats["calls:guard inside" if mok else ("calls:model rejects" if not macc else "calls:guard outside")] += 1
+            if v in ("module", "fn"):
+                iacc = r["static"]["status"] == "ok"
+                if bool(macc) != iacc:
+                    ctx.disagree("calls: accepted by one side only (a name a called function writes must not be baked into a flash "
+                                 "pattern / glyph)", body, "accepted" if macc else "rejected", r["static"])
+                elif iacc:
+                    fo = r["static"].get("funcs", {})
+                    if v == "module":
+                        ms, im = model_static(ob_p) + model_static(ob_seq), impl_static(r["static"]["obs"])
+                    else:
+                        ms, im = model_static(ob_p) + model_static(ob_seq), impl_static(r["static"]["obs"]) + impl_static(fo.get("us_0") or [])
+                    if ms != im:
+                        ctx.disagree("calls: folded constants of the calling sequence differ (model residual vs IR of the real parser) - a name "
+                                     "a called function writes is a run-time value at every fold site, whichever statement re-bound it",
+                                     body, ms, im)
+                    elif model_static(ob_b) != impl_static(fo.get("gr_0") or []):
+                        ctx.disagree("calls: folded constants of the called body differ (model residual vs IR of the real parser)", body,
+                                     model_static(ob_b), fo.get("gr_0"))
+                    else:
+                        stats["calls:tie static-equal"] += 1
+                    if r["status"] == "ran":
+                        mp, mf = model_obs(mpy), model_obs(mfw)
+                        if mp is not None:
+                            if mp != r["py"]["obs"]:
+                                ctx.disagree("calls: reference run-time semantics of the model (body inlined at each call) differs from CPython",
+                                             body, mp, r["py"]["obs"])
+                            else:
+                                stats["calls:tie py-equal"] += 1
+                        if mf is not None:
+                            if mf != r["fw"]:
+                                ctx.disagree("calls: firmware outputs of the model differ from the real firmware", body, mf, r["fw"])
+                            else:
+                                stats["calls:tie fw-equal"] += 1
+        # ---- the property on the real artefacts
+        if inside and r["status"] == "ran":
+            stats["calls:oracle programs"] += 1
+            if len(r["py"]["obs"]) >= 2:
+                distinct.add(body)
+            if r["fw"] != r["py"]["obs"]:
+                failing.append((len(sc), sc, r, v, idx))
+            elif len(samples) < 2 and len(body) < 500:
+                samples.append(body)
+    failing.sort(key=lambda f: f[0])
+    for n_f, (_, sc, r, v, idx) in enumerate(failing):
+        if n_f == 0:
+            small = shrink_calls(progs[idx], drs[idx], ars[idx], loops[idx])
+            if small is not None:
+                sc, r = small
+                stats["calls:failing program shrunk"] += 1
+        ctx.fail("firmware observations differ from CPython's after a call of a function that writes a module-level name: a value the "
+                 "transpiler baked in for that name is stale (calling sequence: " + v + ")",
+                 {"script": sc, "digital_read(4)": drs[idx], "analog_read(14)": ars[idx], "main_loop_passes": loops[idx]},
+                 r["py"]["obs"], r["fw"], key="stale-fold-after-call")
+    return len(progs), len(distinct), samples, n_sk
+
+
 SIMPLE_KINDS = ("assign", "rt", "append", "remove", "len", "flash", "glyph", "val", "aug", "tuple")
 
 
@@ -1901,6 +2230,7 @@ def replay_findings(ctx):
     """every listed witness is replayed on the real artefacts (real parse() + emit(), g++, mock core vs CPython).
     kind=finding and still failing -> KNOWN-FINDING; kind=fixed and failing again -> a property failure (VIOLATION with
     the witness as replay): a fixed entry suppresses nothing"""
+    WITNESSES.update(CALL_WITNESSES)
     listed = {f["id"]: f for f in ctx.findings if f["id"] in WITNESSES}
     if not listed:
         return
@@ -1925,20 +2255,22 @@ def run(ctx: C.Ctx):
     replay_findings(ctx)          # first: a repaired defect that is back is the first VIOLATION reported
     n_a, d_a, s_a = layer_a(ctx, stats)
     n_b, d_b, s_b, n_sk = layer_b(ctx, stats)
+    n_c, d_c, s_c, n_sk_c = layer_calls(ctx, stats)
+    s_b = s_b + s_c
     ctx.coverage.update({
-        "evaluations": n_a + n_b,
-        "distinct_nontrivial": d_a + d_b,
-        "programs": n_b,
-        "sketches_compiled": n_sk,
-        "rule": "(round 3 additions - A: sensor-model-shaped expressions ('HC-SR04' spellings, concatenations, names bound to model strings) through Ultrasonic(7, 8, model=<e>) and every sampled expression through Led(<e>): the folded model / pin is what the argument names at run time. B: tuple assignments at every depth and in every program family (swaps and 3-rotations of int / str names whose tracked constants differ, `x, y = <new string>, len(x)` and three-target forms whose last right-hand side reads both earlier targets, pairs of expressions where the second reads the first target; all-new pairs at module level), each followed by the fold sites that read the targets (len(target), a glyph bitmap built from the targets, append(target) + flash_pattern); flash_pattern(name) followed by append / remove of constants to the same list - in the same block, in a taken-or-not branch, in a for body - and a second flash_pattern; try / except blocks (sent to the model as `if <true>: body else: handler`; the head of every handler prints a marker so that a CPython run that enters a handler is discarded); removes that prefer a duplicated value; a family of small scenario programs built around one such fold site each; a failing program is shrunk by deleting simple statements (re-checked against the guard of the extracted model) before it is reported.) A: boundary expressions (every node kind _eval_const looks at, each operator with int/float/bool/str operands, error sources, hostile forms) x 3-5 environments (known int/float/bool/str/list/tuple, a marker, an unbound name), then seeded random expressions (harness/pyast_wire.gen_expr, depth 1-4) - each through the extracted model and the real _eval_const/_expr_has_name/_to_c_expr, a sample also through parse() at the blink/backlight/glyph/sleep call sites with the environment set up by assignments; non-trivial (A) = distinct (expression, environment) on which the real evaluator returned a value inside the guard and the CPython comparison ran. B: seeded programs (assign / augmented assign / run-time read / append / remove / len(name) / flash_pattern(name) / lcd.glyph(0, [rows]) / mon.write(name) = the run-time value of a variable; at module level a 'retune' pattern: a constant is re-assigned and then used in the FIRST assignment of another module-level name, which is then printed - the static-initialiser vs run-time-assignment split; a fifth of the programs additionally use tuple assignment, oracle only) under if, while, for and - every fourth program - the sketch's main loop `while True:` run 1-3 passes; 80 % generated inside the guard; every second guarded program is generated for the FLOW guard: tracked constants are re-assigned / appended inside branches and loop bodies, if / elif / else chains of 1-3 branches where 60 % of the branches with later siblings re-assign a tracked constant and the later siblings fold it (len / glyph row) from the snapshot, loop bodies that write tracked constants nothing folds, for-loop variables named like a tracked module constant followed by a re-assignment with a probe (a string formatted from the binder, and its length) in the body; a further quarter of the programs define a function whose formal arguments are mostly named like tracked module constants of the same type, with len(argument) / glyph / flash_pattern / len(module constant) / locals in the body, module statements between the def and 1-2 calls (some re-assigning a constant the body folds), arguments that differ from the same-named constants) with one seeded execution path each (branches taken or not, loops 0-3 times): real parse() IR vs model residual (folded constants; which module-level first assignments became static initialisers and which stayed in setup()), CPython run vs model reference semantics, firmware run (batched sketches, g++, mock core) vs model firmware outputs; non-trivial (B) = distinct program inside the guard that ran on both sides with >= 2 observations.",
+        "evaluations": n_a + n_b + n_c,
+        "distinct_nontrivial": d_a + d_b + d_c,
+        "programs": n_b + n_c,
+        "sketches_compiled": n_sk + n_sk_c,
+        "rule": "(round 4 - layer C, calls of functions that write module-level names: module constants (lists, strings, ints) bound before the def; def gr(): appends a constant or a run-time value to a module list, `global s; s = s + 'x'`, augmented assignment, a plain constant, one tuple assignment of two globals, optionally under an if, optionally printing a length; then [re-bind a written name; gr(); fold it] 1-3 times where the re-binding is EVERY statement form - plain assignment, tuple assignment in either target order and as a swap of two strings, augmented assignment, a list comprehension over a literal range, assignment followed by append of a constant, the assignment (plain or tuple) inside if / else / try / for / while, or nothing at all (the name was forgotten at the def) - never a plain assignment between the re-binding and the call; folds: len(name), mon.write(name), rarely flash_pattern(name) / a glyph row (refused by the transpiler: nothing to bake). Variants: calling sequence at module level (model correspondence: accepted / rejected, folded constants of the calling sequence and of the body vs the real IR, model reference semantics vs CPython, model firmware vs real firmware), as the body of a second function (same correspondence with in_fn; the caller re-binds only by forms that leave the name unknown - the listed finding), inside the main loop 1-3 passes / inside an if body, an else branch or a try body / inside a for or while body run 0-3 times / two writer functions with the second def after the first statements / a writer with an int parameter (oracle only: firmware observations = CPython's; the guard is the model's calls_ok of the straight-line sequence).) (round 3 additions - A: sensor-model-shaped expressions ('HC-SR04' spellings, concatenations, names bound to model strings) through Ultrasonic(7, 8, model=<e>) and every sampled expression through Led(<e>): the folded model / pin is what the argument names at run time. B: tuple assignments at every depth and in every program family (swaps and 3-rotations of int / str names whose tracked constants differ, `x, y = <new string>, len(x)` and three-target forms whose last right-hand side reads both earlier targets, pairs of expressions where the second reads the first target; all-new pairs at module level), each followed by the fold sites that read the targets (len(target), a glyph bitmap built from the targets, append(target) + flash_pattern); flash_pattern(name) followed by append / remove of constants to the same list - in the same block, in a taken-or-not branch, in a for body - and a second flash_pattern; try / except blocks (sent to the model as `if <true>: body else: handler`; the head of every handler prints a marker so that a CPython run that enters a handler is discarded); removes that prefer a duplicated value; a family of small scenario programs built around one such fold site each; a failing program is shrunk by deleting simple statements (re-checked against the guard of the extracted model) before it is reported.) A: boundary expressions (every node kind _eval_const looks at, each operator with int/float/bool/str operands, error sources, hostile forms) x 3-5 environments (known int/float/bool/str/list/tuple, a marker, an unbound name), then seeded random expressions (harness/pyast_wire.gen_expr, depth 1-4) - each through the extracted model and the real _eval_const/_expr_has_name/_to_c_expr, a sample also through parse() at the blink/backlight/glyph/sleep call sites with the environment set up by assignments; non-trivial (A) = distinct (expression, environment) on which the real evaluator returned a value inside the guard and the CPython comparison ran. B: seeded programs (assign / augmented assign / run-time read / append / remove / len(name) / flash_pattern(name) / lcd.glyph(0, [rows]) / mon.write(name) = the run-time value of a variable; at module level a 'retune' pattern: a constant is re-assigned and then used in the FIRST assignment of another module-level name, which is then printed - the static-initialiser vs run-time-assignment split; a fifth of the programs additionally use tuple assignment, oracle only) under if, while, for and - every fourth program - the sketch's main loop `while True:` run 1-3 passes; 80 % generated inside the guard; every second guarded program is generated for the FLOW guard: tracked constants are re-assigned / appended inside branches and loop bodies, if / elif / else chains of 1-3 branches where 60 % of the branches with later siblings re-assign a tracked constant and the later siblings fold it (len / glyph row) from the snapshot, loop bodies that write tracked constants nothing folds, for-loop variables named like a tracked module constant followed by a re-assignment with a probe (a string formatted from the binder, and its length) in the body; a further quarter of the programs define a function whose formal arguments are mostly named like tracked module constants of the same type, with len(argument) / glyph / flash_pattern / len(module constant) / locals in the body, module statements between the def and 1-2 calls (some re-assigning a constant the body folds), arguments that differ from the same-named constants) with one seeded execution path each (branches taken or not, loops 0-3 times): real parse() IR vs model residual (folded constants; which module-level first assignments became static initialisers and which stayed in setup()), CPython run vs model reference semantics, firmware run (batched sketches, g++, mock core) vs model firmware outputs; non-trivial (B) = distinct program inside the guard that ran on both sides with >= 2 observations.",
         "samples": [{"expr": x} for x in s_a] + [{"program": x} for x in s_b],
         "distribution": dict(sorted(stats.items())),
-        "guard": "A: in_guard (no one-argument max/min), no variable named like a builtin of _SAFE_NAME_REFERENCES. B: is_fresh (ConstEnv.tblock's flag) - since the repair of the stale-fold findings only single-statement side conditions: every folded expression inside in_guard, no variable named like a builtin the evaluator interprets, a remove with a constant argument finds it in the tracked list; NOTHING about where a name is assigned / appended to / removed from (branches, loop bodies, try bodies, run-time arguments are all inside) - and def_ok for every call of a defined function (the same side conditions for prefix, body and the statements before the call; formal arguments not named like a builtin); split_ok = is_fresh and the hoisting side conditions of C03_global_split_partial. A program goes to the oracle when the extracted model says so. The witnesses of the eight repaired findings (kind=fixed) are replayed first on every run: one that fails again is reported as a VIOLATION with the witness as replay.",
+        "guard": "A: in_guard (no one-argument max/min), no variable named like a builtin of _SAFE_NAME_REFERENCES. B: is_fresh (ConstEnv.tblock's flag) - since the repair of the stale-fold findings only single-statement side conditions: every folded expression inside in_guard, no variable named like a builtin the evaluator interprets, a remove with a constant argument finds it in the tracked list; NOTHING about where a name is assigned / appended to / removed from (branches, loop bodies, try bodies, run-time arguments are all inside) - and def_ok for every call of a defined function (the same side conditions for prefix, body and the statements before the call; formal arguments not named like a builtin); split_ok = is_fresh and the hoisting side conditions of C03_global_split_partial. Layer C: calls_ok (the same single-statement side conditions for prefix, body and every segment of the calling sequence) - nothing about which statement re-binds a written name; outside: the calling sequence inside a function body that re-binds a written name by a plain / tuple assignment of a constant (finding F-C03-stale-after-call-in-function, never generated). A program goes to the oracle when the extracted model says so. The witnesses of the eight repaired findings (kind=fixed) are replayed first on every run: one that fails again is reported as a VIOLATION with the witness as replay.",
         "unmodelled": ["IEEE specials, float results that are not exactly representable are compared only CPython-vs-implementation (exact), not against the rational model",
                        "sensor model names and Led pins are oracle-only fold sites (real parse() vs CPython value; no Gallina function for the model-name canonicalisation); other device constructors' pins follow the same _resolve pattern and are not run",
                        "list aliasing between variables (b = a), flash_pattern / glyph with an inline literal containing names (ast.literal_eval path) in the environment model",
                        "len(name) INSIDE a right-hand side / append / remove argument is folded by the real translation (_to_c_expr); the model keeps those expressions symbolic - inside is_fresh the environment agrees with the run-time state at every program point (C03_env_agrees), so the folded length is the run-time length (C03_literal_length_sound); the model-vs-real firmware tie is skipped for programs outside the guard that contain one",
-                       "function bodies that write module-level names (ctx['_function_written']: volatile at module level from the def on) are in the model (ConstEnv.tstep's parameter vol, C03_def_partial, C03_def_written_is_volatile) but the generated function bodies only assign locals; calls of functions from inside blocks, functions calling functions are not generated",
+                       "calls of a writer function from INSIDE a block (main loop, if, for body), two writer functions, a writer with a parameter: oracle only (firmware vs CPython), the Gallina call model (Lang/ConstCall.v) has one parameterless call-free writer called between top-level segments of the calling scope; recursion, writers that return values feeding fold sites, Button on_click callbacks as writers are not generated; sleep(name) is not a fold site of the environment (C03_namefree_closed: only name-free arguments fold) and is not observed in layer C",
                        "tuple assignment: the model has the temporaries form (Lang/ConstTuple.v, proved simultaneous); where all targets are new at module level the real transpiler declares the names one by one without temporaries and the harness sends single assignments (tie: globals / top-level assignments / folded constants); tuple assignment of list VALUES (aliasing) and targets that are partly new at module level (setup()-local declarations: C01/C06) are not generated",
                        "try / except: modelled as a two-way branch whose body is taken (a body that raises nothing); handlers that actually run (exceptions at run time), finally / else clauses, typed handlers are outside",
                        "IR nodes other than LedFlashPattern that hold lists (LCDGlyph.bitmap is built entry by entry from a freshly evaluated list and cannot alias the environment: names bound to lists do not evaluate) - covered by reading the real IR after parse() in the correspondence, not by Lang/ConstNodes.v",
